@@ -77,13 +77,8 @@ class TaskInst:
                 return run_sender(s, hop(self.sched), self.env(),
                                   lambda ch, pack, res=res, k=k: k(*res) if ch == "v" else k(ch, pack))
             elif op == "z":
-                # async_trace_sender completes inline and is not scheduler affine: value, then the hop back
-                def kz(ch, pack, i=i):
-                    if ch != "v":
-                        return self.resumed(i, ch, pack)
-                    s.emit("B %d %d %d v - tag=%d" % (self.pid, self.inst, i, s.cur_tag))
-                    self.step(i + 1)
-                return run_sender(s, hop(self.sched), self.env(), kz)
+                # async_trace_sender completes inline (always_inline senders count as scheduler affine: no hop)
+                s.emit("B %d %d %d v - tag=%d" % (self.pid, self.inst, i, s.cur_tag))
             elif op == "q":
                 if self.tok.requested:
                     return self.exit("d", None)
